@@ -15,7 +15,7 @@ import (
 type Dir struct {
 	Name string `json:"name"` // skip | include
 	If   bool   `json:"if"`
-	v    bool   // render the condition through a variable
+	v    int    // render the condition as a literal (0), through a supplied variable (1), through the default of a variable that is not supplied (2)
 }
 
 type Sel struct {
@@ -131,7 +131,7 @@ func (g *gen) dirsFor() []Dir {
 	if !g.dirs || g.r.Intn(3) != 0 {
 		return ds
 	}
-	mk := func(name string) Dir { return Dir{Name: name, If: g.r.Intn(2) == 0, v: g.r.Intn(3) == 0} }
+	mk := func(name string) Dir { return Dir{Name: name, If: g.r.Intn(2) == 0, v: []int{0, 0, 0, 1, 1, 2, 2}[g.r.Intn(7)]} }
 	switch g.r.Intn(4) {
 	case 0:
 		ds = append(ds, mk("skip"))
@@ -246,8 +246,11 @@ func renderDirs(ds []Dir) string {
 	var b strings.Builder
 	for _, d := range ds {
 		cond := fmt.Sprint(d.If)
-		if d.v {
+		switch d.v {
+		case 1:
 			cond = map[bool]string{true: "$t", false: "$f"}[d.If]
+		case 2:
+			cond = map[bool]string{true: "$dt", false: "$df"}[d.If]
 		}
 		fmt.Fprintf(&b, " @%s(if: %s)", d.Name, cond)
 	}
@@ -302,7 +305,7 @@ func usedDefs(ss *SelSet, defs map[string]*SelSet, out map[string]bool) {
 // Render produces the query text (with fragment definitions) for the AST.
 func (g *gen) Render(root *SelSet) string {
 	var b strings.Builder
-	b.WriteString("query Q($t: Boolean!, $f: Boolean!) ")
+	b.WriteString("query Q($t: Boolean!, $f: Boolean!, $dt: Boolean = true, $df: Boolean = false) ")
 	renderSet(root, &b)
 	used := map[string]bool{}
 	usedDefs(root, g.defs, used)
